@@ -248,6 +248,21 @@ theorem C14_patterns_nillable (h : Hdr) (t : Ty) (fp fa : FT) (vp va : Val)
   have := C14_patterns h t fp fa vp va
   simpa only [hu] using this
 
+/-- An explicitly EMPTY collection is a supplied value like any other (it is not nil): under the primary name
+alone or the alias name alone the field becomes the empty collection, and next to a value under the other name it
+is the "both" error.  (The recursive pass hands the empty list on as an empty list: `C10_recurse_empty_list`.) -/
+theorem C14_empty_collection_is_supplied (h : Hdr) (e : Ty) (fp fa : FT) (v : Val) (hv : v.isNil = false) :
+    aliasUnmangle h (.slice e) [(fp, .list []), (fa, .nilv)] = .ok (.list []) ∧
+    aliasUnmangle h (.slice e) [(fp, .nilv), (fa, .list [])] = .ok (.list []) ∧
+    aliasUnmangle h (.slice e) [(fp, .list []), (fa, v)] = .err ("both alias and original set for field " ++ h.name) ∧
+    aliasUnmangle h (.slice e) [(fp, v), (fa, .list [])] = .err ("both alias and original set for field " ++ h.name) := by
+  have hp := C14_patterns_nillable h (.slice e) fp fa
+  refine ⟨?_, ?_, ?_, ?_⟩
+  · exact (hp (.list []) .nilv (Or.inr (Or.inl ⟨e, rfl⟩))).1 rfl rfl
+  · exact (hp .nilv (.list []) (Or.inr (Or.inl ⟨e, rfl⟩))).2.1 rfl rfl
+  · exact (hp (.list []) v (Or.inr (Or.inl ⟨e, rfl⟩))).2.2.2 rfl hv
+  · exact (hp v (.list []) (Or.inr (Or.inl ⟨e, rfl⟩))).2.2.2 hv rfl
+
 /-- A field without alias passes its single value through. -/
 theorem C14_single (h : Hdr) (t : Ty) (f : FT) (v : Val) : aliasUnmangle h t [(f, v)] = .ok v := by
   rfl
